@@ -59,7 +59,8 @@ ASSUMPTIONS = [
     "leaves below a schedule accept scale_strength (recipes flagged strength_ok)",
     "multi-view wrappers are not placed directly on an XTransformWrapper (own assertion: deterministic transform below); stacks containing "
     "a fused wrapper (KDMixWrapper, SemsegTransformWrapper) end in a wrapper type implementing the requested items (ModeWrapper's assertion)",
-    "SemsegTransformWrapper members: the five semseg classes it dispatches on, or size-preserving image transforms",
+    "SemsegTransformWrapper members: the five semseg classes it dispatches on, or size-preserving image transforms; KDSemsegRandomResize "
+    "is not fed with strips thinner than 4 pixels or more elongated than 4:1 (it computes an output size of 0: geometry, C14)",
     "KDConcatDataset reports no collators (its own property): concat stacks are run without collate function",
     "the real loader uses the fork start method and one pass; InterleavedSampler.get_data_loader passes no keyword arguments to the hook, "
     "so interleaved probe stacks hold no schedule",
@@ -76,8 +77,8 @@ WITNESSES_PER_KEY = 4
 # ------------------------------------------------------------------------------------------------ generation
 def gen_cases(run):
     rng = run.rng
-    n_sim = run.n(150, 16 * 1500)
-    n_loader = run.n(24, 16 * 150)
+    n_sim = run.n(150, 16 * 500)
+    n_loader = run.n(24, 16 * 60)
     part = os.environ.get("KDV_C09_PART")       # development aid: run only one half of the check
     if part == "loader":
         for _ in range(n_loader):
@@ -580,6 +581,9 @@ def run_case(run, spec):
         findings = evaluate_loader(run, spec)
         if not findings:
             run.count("loader_cases_held")
+            if len(run.samples) < 7:
+                run.sample({"loader_stack": brief_stack(spec["top"]), "num_workers": spec["W"], "batch_size": spec["B"],
+                            "torch_seeds": spec["torch_seed"]}, cap=7)
     _report(run, spec, findings)
 
 
